@@ -580,6 +580,18 @@ func buildSchema(s *SchemaSpec) *jsonapi.Schema {
 	return sc
 }
 
+// useTypes runs the entry points that look types up (full and partial unmarshaling, URL parsing) for the named types.
+func useTypes(sc *jsonapi.Schema, names []string) {
+	defer func() { _ = recover() }()
+	for _, n := range names {
+		body := []byte(fmt.Sprintf(`{"type":%q,"id":"x"}`, n))
+		_, _ = jsonapi.UnmarshalPartialResource(body, sc)
+		_, _ = jsonapi.UnmarshalResource(body, sc)
+		_, _ = jsonapi.UnmarshalDocument([]byte(`{"data":`+string(body)+`}`), sc)
+		_, _ = jsonapi.NewURLFromRaw(sc, "/"+url.PathEscape(n))
+	}
+}
+
 func buildSchemaHistory(s *SchemaSpec) *jsonapi.Schema {
 	sc := &jsonapi.Schema{}
 	add := func(t *TypeSpec) {
@@ -606,15 +618,23 @@ func buildSchemaHistory(s *SchemaSpec) *jsonapi.Schema {
 			add(&s.Types[i])
 		}
 	case variant == 1:
-		// decoy in the last slot while the schema is used, then replaced by the real last type
+		// decoys in the last slot while the schema is used - one of them under the NAME of the real last type but
+		// with another definition - then replaced by the real last type
 		for i := 0; i < n-1; i++ {
 			add(&s.Types[i])
 		}
 		if err := sc.AddType(jsonapi.Type{Name: "zz-decoy"}); err != nil {
 			panic("harness: " + err.Error())
 		}
+		last := s.Types[n-1].Name
+		if err := sc.AddType(jsonapi.Type{Name: last, Attrs: map[string]jsonapi.Attr{"zz-decoy-attr": {Name: "zz-decoy-attr", Type: jsonapi.AttrTypeBool}},
+			Rels: map[string]jsonapi.Rel{"zz-decoy-rel": {FromType: last, FromName: "zz-decoy-rel", ToType: last}}}); err != nil {
+			panic("harness: " + err.Error())
+		}
 		lookups()
+		useTypes(sc, []string{last, "zz-decoy"})
 		sc.RemoveType("zz-decoy")
+		sc.RemoveType(last)
 		add(&s.Types[n-1])
 	case variant == 2:
 		// first type removed and added again after the schema was used (it ends up last)
@@ -623,6 +643,7 @@ func buildSchemaHistory(s *SchemaSpec) *jsonapi.Schema {
 		}
 		lookups()
 		if n > 1 {
+			useTypes(sc, []string{s.Types[0].Name})
 			sc.RemoveType(s.Types[0].Name)
 			add(&s.Types[0])
 		}
